@@ -229,6 +229,29 @@ MUTATORS = {
 }  # fmt: skip
 
 
+def const_str(prog, e, f):
+    """text of a string literal, or of a module-level name bound exactly once to a string literal (also through
+    another module: util._MARK); None otherwise"""
+    if isinstance(e, ast.Constant):
+        return e.value if isinstance(e.value, str) else None
+    if isinstance(e, ast.JoinedStr) and all(isinstance(v, ast.Constant) for v in e.values):
+        return ''.join(str(v.value) for v in e.values)
+    if isinstance(e, ast.BinOp) and isinstance(e.op, ast.Add):
+        a, b = const_str(prog, e.left, f), const_str(prog, e.right, f)
+        return a + b if a is not None and b is not None else None
+    if isinstance(e, (ast.Name, ast.Attribute)):
+        sym = prog.resolve_in(e, f)
+        if not sym or sym.startswith(('local:', 'external:')):
+            return None
+        mod, _, name = sym.rpartition('.')
+        m = prog.modules.get(mod)
+        if m is not None:
+            vals = m.globals.get(name, [])
+            if len(vals) == 1 and isinstance(vals[0], ast.Constant) and isinstance(vals[0].value, str):
+                return vals[0].value
+    return None
+
+
 class Sink:
     """one evaluated selection predicate over catalogue keys"""
 
@@ -374,6 +397,9 @@ class Eval:
         sym = self.prog.resolve_in(e, f)
         if sym == TABLE_ENUM:
             return [('obj', TABLE_ENUM)]
+        c = const_str(self.prog, e, f)  # module-level string constant (delimiters kept in named constants)
+        if c is not None:
+            return [sstr(lit(c))]
         return [UNK]
 
     def _e_Attribute(self, e, env, f):
@@ -382,6 +408,9 @@ class Eval:
             rest = sym[len(TABLE_ENUM) + 1 :].split('.')
             if rest[0] in self.m.members and rest[1:] in ([], ['value'], ['name']):
                 return [('tmember', rest[0])]
+        c = const_str(self.prog, e, f)
+        if c is not None:
+            return [sstr(lit(c))]
         out = []
         for b in self.ev(e.value, env, f):
             if b[0] == 'dbi' and e.attr in ('tables', 'indices'):
@@ -947,6 +976,8 @@ class Eval:
     def _builtin(self, e, name, env, f):
         args = e.args
         kw = {k.arg: k.value for k in e.keywords if k.arg}
+        if name in ('list', 'set') and not args and not kw:
+            return [('list', ())]
         if name in ('list', 'sorted', 'reversed', 'set', 'frozenset', 'iter') and len(args) >= 1:
             out = []
             for v in self.ev(args[0], env, f):
@@ -1059,6 +1090,25 @@ class _Body(Flow):
 
     def on_stmt(self, s, st):
         E, f = self.E, self.f
+        if isinstance(s, ast.Assign) and len(s.targets) == 1 and isinstance(s.targets[0], ast.Subscript) \
+                and isinstance(s.targets[0].value, ast.Name) and not isinstance(s.targets[0].slice, ast.Slice):
+            # local_dict[key] = id : an explicit loop collecting (a subset of) a table
+            t = s.targets[0]
+            cur_v = E.lookup(st, t.value.id)
+            if cur_v is not None and cur_v[0] in ('dict0', 'table'):
+                out = []
+                for kv in E.ev(t.slice, st, f):
+                    if cur_v[0] == 'table':
+                        E.stores.append((f, s, cur_v, kv))
+                        out.append(st)
+                        continue
+                    for vv in E.ev(s.value, st, f):
+                        if kv[0] == 'key' and vv[0] == 'id' and kv[1] == vv[1]:
+                            new = ('table', kv[1]) if cur_v[0] == 'dict0' or cur_v[1] == kv[1] else ('table', '?')
+                        else:
+                            new = UNK
+                        out += E.bind(t.value, new, st)
+                return out
         if isinstance(s, ast.Assign):
             vals = E.ev(s.value, st, f)
             cur = [st]
@@ -1099,6 +1149,23 @@ class _Body(Flow):
                             new = cur
                         else:
                             new = UNK
+                        out += E.bind(c.func.value, new, st)
+                    return out
+            # local_list.append(x) / local_set.add(x): an explicit loop collecting keys / ids / strings
+            if (
+                isinstance(c, ast.Call)
+                and isinstance(c.func, ast.Attribute)
+                and c.func.attr in ('append', 'add')
+                and isinstance(c.func.value, ast.Name)
+                and len(c.args) == 1
+            ):
+                cur = E.lookup(st, c.func.value.id)
+                if cur is not None and (cur == ('list', ()) or cur[0] in ('ids', 'keys', 'items', 'listof')):
+                    out = []
+                    for v in E.ev(c.args[0], st, f):
+                        new = seq_like(None, v)
+                        if cur != ('list', ()) and new != cur:
+                            new = ('listof', UNK)
                         out += E.bind(c.func.value, new, st)
                     return out
             E.ev(c, st, f)
@@ -1318,18 +1385,19 @@ class Model:
         return isinstance(e, ast.Call) and self.prog.callee(e, f) == DBI_CLS
 
     def cat(self, e, f, depth=0):
-        """(group, selector) when e denotes a catalogue table / index; selector = member name | ('dyn', expr) | '*'"""
-        if isinstance(e, ast.Name) and depth < 3:
+        """(group, selector) when e denotes a catalogue table / index; selector = member name | ('dyn', expr) | '*';
+        ('dbi', None) for DBI() itself.  Local aliases bound once (dbi = DBI(); tabs = DBI().tables; t = tabs.alg) are followed."""
+        if depth > 4:
+            return None
+        if isinstance(e, ast.Name):
             vals = assigned_value(f, e.id)
             if len(vals) == 1 and e.id not in f.params():
                 return self.cat(vals[0], f, depth + 1)
             return None
+        if self.is_dbi_call(e, f):
+            return ('dbi', None)
         if isinstance(e, ast.Attribute):
             b = e.value
-            if isinstance(b, ast.Attribute) and b.attr in ('tables', 'indices') and self.is_dbi_call(b.value, f):
-                return (b.attr, e.attr)
-            if e.attr in ('tables', 'indices') and self.is_dbi_call(b, f):
-                return (e.attr, '*')
             if (
                 isinstance(b, ast.Name)
                 and b.id == 'self'
@@ -1338,10 +1406,17 @@ class Model:
                 and e.attr in ('_DBI__tables', '_DBI__indices')
             ):
                 return ('tables' if e.attr.endswith('tables') else 'indices', '*')
+            g = self.cat(b, f, depth + 1)
+            if g is None:
+                return None
+            if g[0] == 'dbi':
+                return (e.attr, '*') if e.attr in ('tables', 'indices') else None
+            if g[1] == '*' and e.attr in self.members:
+                return (g[0], e.attr)
             return None
         if isinstance(e, ast.Subscript):
-            g = self.cat(e.value, f, depth)
-            if g is not None and g[1] == '*':
+            g = self.cat(e.value, f, depth + 1)
+            if g is not None and g[0] != 'dbi' and g[1] == '*':
                 sym = self.prog.resolve_in(e.slice, f) if isinstance(e.slice, (ast.Name, ast.Attribute)) else None
                 if sym and sym.startswith(TABLE_ENUM + '.'):
                     mem = sym[len(TABLE_ENUM) + 1 :].split('.')[0]
@@ -1523,7 +1598,7 @@ def scan_writes(model):
             for t, how in tgts:
                 if isinstance(t, ast.Subscript):
                     c = model.cat(t.value, f)
-                    if c is not None:
+                    if c is not None and c[0] != 'dbi':
                         sites.append(dict(kind='direct', f=f, node=n, group=c[0], may=may_be(f, n, c[1]), how=how, sel=c[1]))
                 elif isinstance(t, ast.Attribute) and t.attr in ('_DBI__tables', '_DBI__indices'):
                     inside = f.cls is not None and f.cls.qname == DBI_CLS
@@ -1533,14 +1608,14 @@ def scan_writes(model):
                 continue
             if isinstance(n.func, ast.Attribute) and n.func.attr in MUTATORS:
                 c = model.cat(n.func.value, f)
-                if c is not None:
+                if c is not None and c[0] != 'dbi':
                     sites.append(dict(kind='direct', f=f, node=n, group=c[0], may=may_be(f, n, c[1]), how='.' + n.func.attr + '()', sel=c[1]))
                     continue
             cargs = []
             for x in list(n.args) + [k.value for k in n.keywords]:
                 x = x.value if isinstance(x, ast.Starred) else x
                 c = model.cat(x, f)
-                if c is not None and c[1] != '*':
+                if c is not None and c[0] != 'dbi' and c[1] != '*':
                     cargs.append((x, c))
             if not cargs:
                 continue
@@ -1710,6 +1785,9 @@ def _sorted_by_id(e, tname, f, prog):
             return norm(k.body) in (f'{tname}[{a}]', f'{tname}.get({a})')
         return False
 
+    if isinstance(e, ast.Name):
+        vals = assigned_value(f, e.id)
+        return len(vals) == 1 and e.id not in f.params() and _sorted_by_id(vals[0], tname, f, prog)
     if isinstance(e, ast.Call) and isinstance(e.func, ast.Name) and e.func.id == 'list' and len(e.args) == 1:
         return _sorted_by_id(e.args[0], tname, f, prog)
     if isinstance(e, ast.Call) and isinstance(e.func, ast.Name) and e.func.id == 'sorted' and len(e.args) == 1:
@@ -1720,6 +1798,8 @@ def _sorted_by_id(e, tname, f, prog):
     if isinstance(e, ast.ListComp) and len(e.generators) == 1 and not e.generators[0].ifs:
         g = e.generators[0]
         it = g.iter
+        if isinstance(it, ast.Name) and it.id not in f.params() and len(assigned_value(f, it.id)) == 1:
+            it = assigned_value(f, it.id)[0]
         if not (isinstance(it, ast.Call) and isinstance(it.func, ast.Name) and it.func.id == 'sorted' and len(it.args) == 1):
             return False
         a = it.args[0]
@@ -1905,65 +1985,93 @@ def _rule1_open(ctx, rep, M, r):
     r.instance()
     r.check(names_ok, f'{DBI_CLS}:names-cover-Table', dbi.module.relpath, 'DBI.__names = [t.name for t in Table] (no filter)',
             'the list of tables opened by DBI does not cover every member of enums.Table: ' + names_why)
-    # open(): indices group built from a dict filled per name with <sorted by id>(tables dict[name])
-    grp = {}
-    for n in opn.own_nodes():
-        if isinstance(n, ast.Assign):
-            for t in n.targets:
-                if isinstance(t, ast.Attribute) and t.attr in ('_DBI__tables', '_DBI__indices'):
-                    v = n.value
-                    star = [k.value for k in v.keywords if k.arg is None] if isinstance(v, ast.Call) else []
-                    if len(star) == 1 and isinstance(star[0], ast.Name) and not v.args:
-                        grp[t.attr] = star[0].id
-                    else:
-                        grp[t.attr] = None
+    # open(): the indices group is built, for every name in self.__names, from <names sorted by id>(table opened under that name)
+    NAMES = 'self._DBI__names'
+
+    def star_of(attr):
+        for n in opn.own_nodes():
+            if isinstance(n, ast.Assign) and any(isinstance(t, ast.Attribute) and t.attr == attr for t in n.targets):
+                v = n.value
+                star = [k.value for k in v.keywords if k.arg is None] if isinstance(v, ast.Call) else []
+                if len(star) == 1 and not v.args:
+                    return star[0]
+        return None
+
+    def entries(expr, depth=0):
+        """[(key text, value expr, node, executed for every name?)] of a per-name dictionary; None when not understood"""
+        if isinstance(expr, ast.DictComp):
+            if len(expr.generators) == 1 and not expr.generators[0].ifs and isinstance(expr.generators[0].target, ast.Name) \
+                    and isinstance(expr.key, ast.Name) and expr.key.id == expr.generators[0].target.id:
+                return [(expr.key.id, expr.value, expr, norm(expr.generators[0].iter) == NAMES)]
+            return None
+        if isinstance(expr, ast.Name) and depth < 2:
+            out = []
+            for d in assigned_value(opn, expr.id):
+                if isinstance(d, ast.DictComp):
+                    e2 = entries(d, depth + 1)
+                    if e2 is None:
+                        return None
+                    out += e2
+                elif not ((isinstance(d, ast.Dict) and not d.keys) or (isinstance(d, ast.Call) and call_name(d) == 'dict' and not d.args)):
+                    return None
+            loops = [n for n in opn.own_nodes() if isinstance(n, ast.For)]
+            for n in opn.own_nodes():
+                if isinstance(n, ast.Assign):
+                    for t in n.targets:
+                        if isinstance(t, ast.Subscript) and isinstance(t.value, ast.Name) and t.value.id == expr.id:
+                            lp = [l for l in loops if any(x is n for x in ast.walk(l))]
+                            over = bool(lp) and norm(lp[-1].iter) == NAMES and isinstance(lp[-1].target, ast.Name) \
+                                and norm(t.slice) == lp[-1].target.id and not any(
+                                    isinstance(x, (ast.If, ast.Continue, ast.Break)) for x in ast.walk(lp[-1]))
+                            out.append((norm(t.slice), n.value, n, over))
+            return out
+        return None
+
     r.instance()
-    tvar, ivar = grp.get('_DBI__tables'), grp.get('_DBI__indices')
-    if not tvar or not ivar:
+    texpr, iexpr = star_of('_DBI__tables'), star_of('_DBI__indices')
+    tent = entries(texpr) if texpr is not None else None
+    ient = entries(iexpr) if iexpr is not None else None
+    if not tent or not ient:
         r.fail(f'{opn.qname}:groups', where(opn), 'DBI.open no longer builds self.__tables / self.__indices from per-name dictionaries (Group(**d)): not understood')
         return
+    tname = norm(texpr) if isinstance(texpr, ast.Name) else None
     bad, good = [], 0
-    loops = [n for n in opn.own_nodes() if isinstance(n, ast.For)]
-    for n in opn.own_nodes():
-        if isinstance(n, ast.Assign):
-            for t in n.targets:
-                if isinstance(t, ast.Subscript) and isinstance(t.value, ast.Name) and t.value.id == ivar:
-                    loop = [l for l in loops if any(x is n for x in ast.walk(l))]
-                    over_names = loop and norm(loop[-1].iter) == 'self._DBI__names' and isinstance(loop[-1].target, ast.Name) \
-                        and norm(t.slice) == loop[-1].target.id
-                    src = f'{tvar}[{norm(t.slice)}]'
-                    v = n.value
-                    ok = False
-                    if isinstance(v, ast.Call) and len(v.args) == 1 and not v.keywords and norm(v.args[0]) == src:
-                        callee = prog.func_of(prog.callee(v, opn) or '')
-                        if callee is not None:
-                            rep.analysed(callee)
-                            rets = [x for x in callee.own_nodes() if isinstance(x, ast.Return)]
-                            ps = callee.params()
-                            ok = len(rets) == 1 and len(ps) == 1 and rets[0].value is not None and _sorted_by_id(rets[0].value, ps[0], callee, prog)
-                            if not ok:
-                                bad.append((n, f'{callee.qname} does not return the names of its table in ascending order of their ids '
-                                               f'({norm(rets[0].value)[:90] if rets and rets[0].value is not None else "no single return"})'))
-                                continue
-                    if not ok:
-                        ok = _sorted_by_id(v, src, opn, prog)
-                    if not ok:
-                        bad.append((n, f'{norm(n)[:90]} does not rebuild the index from {src} sorted by id'))
-                    elif not over_names:
-                        bad.append((n, f'{norm(n)[:90]} is not executed for every name in self.__names'))
-                    else:
-                        good += 1
-    tstores = [n for n in opn.own_nodes() if isinstance(n, ast.Assign) for t in n.targets
-               if isinstance(t, ast.Subscript) and isinstance(t.value, ast.Name) and t.value.id == tvar]
+    for k, v, n, over in ient:
+        srcs = {f'{tname}[{k}]'} if tname else set()
+        for tk, tv, _tn, _o in tent:
+            if tk == k and isinstance(tv, ast.Name):
+                srcs.add(tv.id)  # table = shelve.open(..); db[name] = table; idx[name] = indexed(table)
+            if tk == k and tname is None:
+                srcs.add(norm(tv))
+        ok = False
+        if isinstance(v, ast.Call) and len(v.args) == 1 and not v.keywords and norm(v.args[0]) in srcs:
+            callee = prog.func_of(prog.callee(v, opn) or '')
+            if callee is not None:
+                rep.analysed(callee)
+                rets = [x for x in callee.own_nodes() if isinstance(x, ast.Return)]
+                ps = callee.params()
+                ok = len(rets) == 1 and len(ps) == 1 and rets[0].value is not None and _sorted_by_id(rets[0].value, ps[0], callee, prog)
+                if not ok:
+                    bad.append((n, f'{callee.qname} does not return the names of its table in ascending order of their ids '
+                                   f'({norm(rets[0].value)[:90] if rets and rets[0].value is not None else "no single return"})'))
+                    continue
+        if not ok:
+            ok = any(_sorted_by_id(v, src, opn, prog) for src in srcs)
+        if not ok:
+            bad.append((n, f'{norm(n)[:90]} does not rebuild the index from the table opened under the same name, sorted by id'))
+        elif not over:
+            bad.append((n, f'{norm(n)[:90]} is not executed for every name in self.__names'))
+        else:
+            good += 1
     if good == 0 and not bad:
-        bad.append((opn.node, f'DBI.open never fills the index dictionary {ivar}'))
-    if not tstores:
-        bad.append((opn.node, f'DBI.open never fills the table dictionary {tvar}'))
+        bad.append((opn.node, 'DBI.open never fills the index dictionary'))
+    if not any(o for _k, _v, _n, o in tent):
+        bad.append((opn.node, 'DBI.open does not open a table for every name in self.__names'))
     if bad:
         for n, msg in bad:
             r.fail(f'{opn.qname}:{norm(n)[:100] if n is not opn.node else "open"}', where(opn, n), msg + ' (position != id after reopen)')
     else:
-        r.ok(f'{opn.qname}:index-rebuilt-sorted-by-id', f'for every table name: {ivar}[n] = <names sorted by id>({tvar}[n])', where(opn))
+        r.ok(f'{opn.qname}:index-rebuilt-sorted-by-id', 'for every table name: index[n] = <names sorted by id>(table[n])', where(opn))
 
 
 # ---------------------------------------------------------------------------
@@ -2080,9 +2188,10 @@ def derive_chain(M):
 class _Dissect(Flow):
     """symbolic run of dissect: which part of the key each returned component is"""
 
-    def __init__(self, f):
+    def __init__(self, f, prog):
         super().__init__()
         self.f = f
+        self.prog = prog
         self.rets = set()
         self.tests = []
         self.odd = []
@@ -2097,8 +2206,8 @@ class _Dissect(Flow):
             inner = self._val(e.args[0], st)
             if isinstance(e.func, ast.Name) and e.func.id == 'int':
                 return ('int', inner)
-            if isinstance(e.func, ast.Attribute) and e.func.attr in ('split',) and isinstance(e.args[0], ast.Constant):
-                return ('split', e.args[0].value, self._val(e.func.value, st))
+            if isinstance(e.func, ast.Attribute) and e.func.attr in ('split',) and const_str(self.prog, e.args[0], self.f) is not None:
+                return ('split', const_str(self.prog, e.args[0], self.f), self._val(e.func.value, st))
             return ('wrap', inner)
         if isinstance(e, ast.Subscript) and isinstance(e.slice, ast.Constant) and isinstance(e.slice.value, int):
             b = self._val(e.value, st)
@@ -2107,8 +2216,8 @@ class _Dissect(Flow):
         return ('?', norm(e)[:30])
 
     def on_test(self, e, st):
-        if isinstance(e, ast.Compare) and len(e.ops) == 1 and isinstance(e.ops[0], ast.In) and isinstance(e.left, ast.Constant):
-            self.tests.append((e.left.value, self._val(e.comparators[0], st)))
+        if isinstance(e, ast.Compare) and len(e.ops) == 1 and isinstance(e.ops[0], ast.In) and const_str(self.prog, e.left, self.f) is not None:
+            self.tests.append((const_str(self.prog, e.left, self.f), self._val(e.comparators[0], st)))
         else:
             self.odd.append(e)
         return (st,), (st,)
@@ -2145,7 +2254,7 @@ def dissect_agreement(M):
     ps = f.params()
     if len(ps) != 1:
         return False, 'dissect no longer takes exactly the key'
-    fl = _Dissect(f)
+    fl = _Dissect(f, prog)
     fl.run(f.node, frozenset({(ps[0], ('key',))}))
     dp, dv = M.delims['parent'], M.delims['version']
     K = ('key',)
@@ -2335,7 +2444,7 @@ def _rule5(ctx, rep, M, E3):
         'R-C08-5',
         'allocation chain task <- algorithm <- state vector <- value is identical in both branches of update, and every '
         'primary-key position / id indexes the index of its own table',
-        floor=30,
+        floor=24,
         breaks='a primary entry resolves to the wrong algorithm / state vector / value name (parent ids or key positions crossed)',
     ) as r:
         upd = prog.func(SHELVE + '.update')
@@ -2415,36 +2524,55 @@ def _rule5(ctx, rep, M, E3):
 
 
 class _Next(Flow):
-    """emptiness facts of locals at the returns of next()"""
+    """facts at the returns of next(): emptiness of locals, names tested true on the path, reaching definitions"""
 
     def __init__(self):
         super().__init__()
         self.rets = []
+        self.defs = []
 
     @staticmethod
     def _var(e):
+        """(local, True) when e is true iff the local is non-empty, (local, False) when true iff empty; else None"""
         if isinstance(e, ast.Name):
-            return e.id
+            return e.id, True
         if isinstance(e, ast.Call) and isinstance(e.func, ast.Name) and e.func.id == 'len' and len(e.args) == 1 and isinstance(e.args[0], ast.Name):
-            return e.args[0].id
-        if isinstance(e, ast.Compare) and len(e.ops) == 1 and isinstance(e.ops[0], (ast.Gt, ast.NotEq)) and norm(e.comparators[0]) == '0':
-            return _Next._var(e.left) if isinstance(e.left, ast.Call) else None
+            return e.args[0].id, True
+        if isinstance(e, ast.Compare) and len(e.ops) == 1:
+            l, op, r = e.left, e.ops[0], e.comparators[0]
+            zero = norm(r) in ('0', '[]', '()')
+            one = norm(r) == '1'
+            inner = _Next._var(l) if isinstance(l, (ast.Call, ast.Name)) else None
+            if inner is None or not inner[1]:
+                return None
+            if isinstance(l, ast.Name) and norm(r) not in ('[]', '()'):
+                return None
+            if zero and isinstance(op, (ast.Gt, ast.NotEq)) or one and isinstance(op, ast.GtE):
+                return inner[0], True
+            if zero and isinstance(op, (ast.Eq, ast.LtE)) or one and isinstance(op, ast.Lt):
+                return inner[0], False
         return None
 
     def on_test(self, e, st):
+        g = frozenset(('#g', n) for n in names_in(e))
         v = self._var(e)
         if v is not None:
-            cur = dict(st).get(v)
-            rest = frozenset(x for x in st if x[0] != v)
-            t = () if cur == 'empty' else (rest | {(v, 'nonempty')},)
-            f = () if cur == 'nonempty' else (rest | {(v, 'empty')},)
-            return t, f
-        return (st,), (st,)
+            name, pos = v
+            cur = dict(x for x in st if len(x) == 2).get(name)
+            rest = frozenset(x for x in st if not (len(x) == 2 and x[0] == name))
+            ne = () if cur == 'empty' else (rest | {(name, 'nonempty')} | (g if pos else frozenset()),)
+            em = () if cur == 'nonempty' else (rest | {(name, 'empty')} | (frozenset() if pos else g),)
+            return (ne, em) if pos else (em, ne)
+        return (st | g,), (st,)
 
     def on_stmt(self, s, st):
-        if isinstance(s, ast.Assign):
-            names = {t.id for t in s.targets if isinstance(t, ast.Name)}
-            return (frozenset(x for x in st if x[0] not in names),)
+        if isinstance(s, (ast.Assign, ast.AugAssign, ast.AnnAssign)):
+            tg = s.targets if isinstance(s, ast.Assign) else [s.target]
+            names = {n.id for t in tg for n in ast.walk(t) if isinstance(n, ast.Name) and isinstance(n.ctx, ast.Store)}
+            st = frozenset(x for x in st if x[0] not in names and not (x[0] == '#def' and x[1] in names))
+            if isinstance(s, ast.Assign) and len(tg) == 1 and isinstance(tg[0], ast.Name) and s.value is not None:
+                self.defs.append(s.value)
+                st = st | {('#def', tg[0].id, len(self.defs) - 1)}
         return (st,)
 
     def on_return(self, node, st):
@@ -2452,33 +2580,37 @@ class _Next(Flow):
         return (st,)
 
 
-def _next_values(M, f, e, st, src_of, depth=0):
+def _next_values(M, f, e, st, src_of, fl=None, depth=0):
     """symbolic values of the run id expression e: ('const', v) | ('max+', k) | ('bad', why)"""
     if depth > 8:
         return [('bad', 'expression too deep')]
     if isinstance(e, ast.Constant) and isinstance(e.value, int) and not isinstance(e.value, bool):
         return [('const', e.value)]
     if isinstance(e, ast.Name):
+        reach = [x[2] for x in st if x[0] == '#def' and x[1] == e.id]
+        if fl is not None and len(reach) == 1:
+            return _next_values(M, f, fl.defs[reach[0]], st, src_of, fl, depth + 1)
         vals = assigned_value(f, e.id)
         if len(vals) == 1:
-            return _next_values(M, f, vals[0], st, src_of, depth + 1)
+            return _next_values(M, f, vals[0], st, src_of, fl, depth + 1)
         return [('bad', f'{e.id} has {len(vals)} definitions')]
     if isinstance(e, ast.IfExp):
-        fl = _Next()
-        t, fa = fl.on_test(e.test.operand if isinstance(e.test, ast.UnaryOp) and isinstance(e.test.op, ast.Not) else e.test, st)
-        if isinstance(e.test, ast.UnaryOp) and isinstance(e.test.op, ast.Not):
-            t, fa = fa, t
-        guard = names_in(e.test)
+        tmp = _Next()
+        t, fa = tmp.cond(e.test, {st})
         out = []
         for s2 in t:
-            out += _next_values(M, f, e.body, s2 | {('#guard', tuple(sorted(guard)))}, src_of, depth + 1)
+            out += _next_values(M, f, e.body, s2, src_of, fl, depth + 1)
         for s2 in fa:
-            out += _next_values(M, f, e.orelse, s2, src_of, depth + 1)
+            out += _next_values(M, f, e.orelse, s2, src_of, fl, depth + 1)
         return out
+    if isinstance(e, ast.BoolOp) and isinstance(e.op, ast.Or) and len(e.values) == 2:
+        # (row[0] or 0): the first operand when it is truthy, else the second
+        g = frozenset(('#g', n) for n in names_in(e.values[0]))
+        return _next_values(M, f, e.values[0], st | g, src_of, fl, depth + 1) + _next_values(M, f, e.values[1], st, src_of, fl, depth + 1)
     if isinstance(e, ast.BinOp) and isinstance(e.op, ast.Add):
         out = []
-        for a in _next_values(M, f, e.left, st, src_of, depth + 1):
-            for b in _next_values(M, f, e.right, st, src_of, depth + 1):
+        for a in _next_values(M, f, e.left, st, src_of, fl, depth + 1):
+            for b in _next_values(M, f, e.right, st, src_of, fl, depth + 1):
                 if a[0] == 'bad' or b[0] == 'bad':
                     out.append(a if a[0] == 'bad' else b)
                 elif a[0] == 'const' and b[0] == 'const':
@@ -2513,7 +2645,12 @@ def _rule2(ctx, rep, M):
                 vals = assigned_value(f, x.id)
                 if len(vals) != 1:
                     return f'{x.id} has {len(vals)} definitions'
-                return all_runs(vals[0])
+                v0 = vals[0]
+                empty = (isinstance(v0, ast.List) and not v0.elts) or (
+                    isinstance(v0, ast.Call) and isinstance(v0.func, ast.Name) and v0.func.id in ('list', 'set') and not v0.args)
+                if empty:
+                    return filled_by_loop(x.id)
+                return all_runs(v0)
             if isinstance(x, ast.Call) and isinstance(x.func, ast.Name) and x.func.id in ('list', 'set', 'sorted', 'tuple') and len(x.args) == 1 and not x.keywords:
                 return all_runs(x.args[0])
             if not isinstance(x, (ast.ListComp, ast.GeneratorExp, ast.SetComp)) or len(x.generators) != 1:
@@ -2533,6 +2670,40 @@ def _rule2(ctx, rep, M):
             r.extra['next_source'] = norm(g.iter)
             return True
 
+        def filled_by_loop(name):
+            """name = []; for key in <all primary keys>: name.append(<run field>)  (no condition in between)"""
+            apps = [n for n in f.own_nodes() if isinstance(n, ast.Call) and isinstance(n.func, ast.Attribute)
+                    and n.func.attr in ('append', 'add') and isinstance(n.func.value, ast.Name) and n.func.value.id == name]
+            others = [n for n in f.own_nodes() if isinstance(n, ast.Call) and isinstance(n.func, ast.Attribute)
+                      and isinstance(n.func.value, ast.Name) and n.func.value.id == name and n.func.attr in MUTATORS and n not in apps]
+            if len(apps) != 1 or others or len(apps[0].args) != 1:
+                return f'{name} is not filled by exactly one append in a loop'
+            loops = [n for n in f.own_nodes() if isinstance(n, ast.For)
+                     and any(isinstance(b, ast.Expr) and b.value is apps[0] for b in n.body)]
+            if len(loops) != 1 or loops[0].orelse:
+                return f'{norm(apps[0])} is conditional or not directly in a for loop: run ids may be skipped'
+            lp = loops[0]
+            if any(isinstance(b, (ast.Continue, ast.Break, ast.If, ast.Return, ast.Try)) for b in lp.body[: [i for i, b in enumerate(lp.body) if isinstance(b, ast.Expr) and b.value is apps[0]][0]]):
+                return f'the loop around {norm(apps[0])} can skip keys'
+            fake = ast.ListComp(elt=apps[0].args[0], generators=[ast.comprehension(target=lp.target, iter=lp.iter, ifs=[], is_async=0)])
+            E = Eval(prog, M, strict=False)
+            en0 = frozenset()
+            whole = {('listof', ('pkey',)), ('table', PRIME), ('keys', PRIME), ('items', PRIME)}
+            for it in E.ev(lp.iter, en0, f):
+                if it not in whole:
+                    return f'{norm(lp.iter)[:70]} does not enumerate the (decoded) keys of the whole primary table'
+                for el in elem_of(it):
+                    for en in E.bind(lp.target, el, en0):
+                        # statements before the append may define locals used by it
+                        body = _Body(E, f)
+                        pre = lp.body[: [i for i, b in enumerate(lp.body) if isinstance(b, ast.Expr) and b.value is apps[0]][0]]
+                        outs = body.block(pre, {en}).normal
+                        for en2 in outs:
+                            if E.ev(fake.elt, en2, f) != [('pkpos', 0)]:
+                                return f'{norm(fake.elt)} is not the run field (position 0) of the key'
+            r.extra['next_source'] = norm(lp.iter)
+            return True
+
         def src_shelve(e, st):
             # max(X) / max(X, default=c) / sorted(X)[-1]
             if isinstance(e, ast.Call) and isinstance(e.func, ast.Name) and e.func.id == 'max' and len(e.args) == 1:
@@ -2543,7 +2714,7 @@ def _rule2(ctx, rep, M):
                     return a
                 if 'default' in kw:
                     return 'max(..., default=) is not understood' if not isinstance(kw['default'], ast.Constant) else True
-                if isinstance(x, ast.Name) and dict(st).get(x.id) == 'nonempty':
+                if isinstance(x, ast.Name) and (x.id, 'nonempty') in st:
                     return True
                 return f'{norm(e)} is evaluated without a preceding emptiness test: it raises on an empty database'
             if isinstance(e, ast.Subscript) and norm(e.slice) == '-1' and isinstance(e.value, ast.Call) \
@@ -2552,7 +2723,7 @@ def _rule2(ctx, rep, M):
                 a = all_runs(x)
                 if a is not True:
                     return a
-                if isinstance(x, ast.Name) and dict(st).get(x.id) == 'nonempty':
+                if isinstance(x, ast.Name) and (x.id, 'nonempty') in st:
                     return True
                 return f'{norm(e)} is evaluated without a preceding emptiness test'
             return None
@@ -2568,7 +2739,7 @@ def _rule2(ctx, rep, M):
             rows = {}
             for n in g.own_nodes():
                 if isinstance(n, ast.Call) and isinstance(n.func, ast.Attribute) and n.func.attr == 'execute' and n.args:
-                    txt = _const_text(n.args[0])
+                    txt = const_str(prog, n.args[0], g)
                     sql.append((n, txt))
                 if isinstance(n, ast.Assign) and isinstance(n.value, ast.Call) and isinstance(n.value.func, ast.Attribute) \
                         and n.value.func.attr == 'fetchone':
@@ -2580,8 +2751,7 @@ def _rule2(ctx, rep, M):
 
             def src_post(e, st):
                 if isinstance(e, ast.Subscript) and isinstance(e.value, ast.Name) and e.value.id in rows and norm(e.slice) == '0':
-                    guard = [x for x in st if x[0] == '#guard']
-                    if not guard or e.value.id not in guard[0][1]:
+                    if ('#g', e.value.id) not in st:
                         return f'{norm(e)} is used without a test that the row / its value is not NULL (empty table)'
                     return True
                 return None
@@ -2595,15 +2765,6 @@ def _rule2(ctx, rep, M):
             r.note('dawgie.db.post.next not present: sibling not checked')
 
 
-def _const_text(e):
-    if isinstance(e, ast.Constant) and isinstance(e.value, str):
-        return e.value
-    if isinstance(e, ast.BinOp) and isinstance(e.op, ast.Add):
-        a, b = _const_text(e.left), _const_text(e.right)
-        return a + b if a is not None and b is not None else None
-    return None
-
-
 def _judge_next(r, M, f, src_of, q):
     fl = _Next()
     out = fl.run(f.node, frozenset())
@@ -2614,7 +2775,7 @@ def _judge_next(r, M, f, src_of, q):
         if node.value is None:
             bad.append('a bare return')
             continue
-        for v in _next_values(M, f, node.value, st, src_of):
+        for v in _next_values(M, f, node.value, st, src_of, fl):
             if v[0] == 'bad':
                 bad.append(v[1])
             elif v[0] == 'max+':
@@ -2703,33 +2864,18 @@ def _rule4(ctx, rep, M, E3):
             r.check(bool(argn) and argn <= keyd, f'{f.qname}:{norm(c)}:removes-the-matched-key', where(f, c),
                     'remove() receives the fields of the matched key',
                     f'{norm(c)} does not pass the fields of the matched key (request values may be None wildcards or differ)')
-            # guards dominating the call: enclosing ifs inside the loop
-            guards = []
-
-            def find(stmts, acc):
-                for s in stmts:
-                    if any(x is c for x in ast.walk(s)):
-                        if isinstance(s, ast.If):
-                            if any(x is c for b in s.body for x in ast.walk(b)):
-                                find(s.body, acc + [(s.test, True)])
-                            else:
-                                find(s.orelse, acc + [(s.test, False)])
-                        elif isinstance(s, (ast.For, ast.While, ast.With, ast.Try)):
-                            for blk in (getattr(s, 'body', []), getattr(s, 'orelse', []), getattr(s, 'finalbody', [])):
-                                find(blk, acc)
-                            for h in getattr(s, 'handlers', []):
-                                find(h.body, acc)
-                        else:
-                            guards.append(acc)
-                        return
-
-            find(loop.body, [])
-            gl = guards[0] if guards else []
+            # tests that hold (with a polarity) on every path from the loop head to the call (early continue / nested ifs alike)
+            dom = _Dom(loop, c)
+            dom.run(f.node, frozenset())
+            common = None
+            for st in dom.at:
+                common = set(st) if common is None else common & set(st)
+            gl = [(dom.tests[i], pol) for i, pol in sorted(common or (), key=lambda x: (dom.tests[x[0]].lineno, dom.tests[x[0]].col_offset))]
             r.instance()
             verdicts = []
             matched = False
             for test, pol in gl:
-                v = _judge_match(test, pol, keyd, reqd)
+                v = _judge_match(test, pol, keyd, reqd, prog, f)
                 if v is None:
                     continue
                 matched = True
@@ -2768,7 +2914,7 @@ def _rule4(ctx, rep, M, E3):
         for n in rm.own_nodes():
             if isinstance(n, ast.Subscript) and isinstance(n.slice, ast.Name) and n.slice.id in rm.params():
                 c = M.cat(n.value, rm)
-                if c and c[0] == 'tables' and not isinstance(c[1], tuple):
+                if c and c[0] == 'tables' and not isinstance(c[1], tuple) and c[1] != '*':
                     roles.setdefault(n.slice.id, set()).add(c[1])
         plist = rm.params()
         rorder = []
@@ -2797,9 +2943,176 @@ def _origins(o):
     return out
 
 
-def _judge_match(test, polarity, keyd, reqd):
+class _Dom(Flow):
+    """atomic tests (with polarity) established since the current iteration of the key loop began, at the call of interest"""
+
+    def __init__(self, loop, call):
+        super().__init__()
+        self.loop, self.call = loop, call
+        self.tests = {}
+        self.at = []
+
+    def on_for(self, node, st):
+        return (frozenset(),) if node is self.loop else (st,)
+
+    def on_test(self, e, st):
+        self.tests[id(e)] = e
+        rest = frozenset(x for x in st if x[0] != id(e))
+        return (rest | {(id(e), True)},), (rest | {(id(e), False)},)
+
+    def on_call(self, c, st):
+        if c is self.call:
+            self.at.append(st)
+        return (st,)
+
+
+def _pair_table(elt, kf, rf):
+    """truth table {(wildcard, equal): value} of a per-field formula over the atoms '<rf> is None' and '<kf> == <rf>'"""
+    table = {}
+    for w in (False, True):
+        for eq in (False, True):
+            table[(w, eq)] = _truth(elt, _pair_atoms(kf, rf, w, eq))
+    return table
+
+
+def _pair_atoms(kf, rf, w, eq):
+    return {f'{rf} is None': w, f'None is {rf}': w, f'{rf} is not None': not w, f'{kf} == {rf}': eq, f'{rf} == {kf}': eq,
+            f'{kf} != {rf}': not eq, f'{rf} != {kf}': not eq}
+
+
+WANT_ALL = {(w, eq): (w or eq) for w in (False, True) for eq in (False, True)}
+STRICT_ALL = {(w, eq): eq for w in (False, True) for eq in (False, True)}
+
+
+def _zip_pair(it, target, keyd, reqd):
+    """(key field var, request field var) of 'for a, b in zip(<key fields>, <request>)'; a reason string otherwise"""
+    if not (isinstance(it, ast.Call) and isinstance(it.func, ast.Name) and it.func.id == 'zip' and len(it.args) == 2
+            and isinstance(target, ast.Tuple) and len(target.elts) == 2 and all(isinstance(x, ast.Name) for x in target.elts)):
+        return f'{norm(it)[:80]}: not zip(<key fields>, <request>)'
+    a0, a1 = (names_in(x) for x in it.args)
+    t0, t1 = (x.id for x in target.elts)
+    if a0 & keyd and a1 and a1 <= reqd and not (a1 & keyd):
+        return t0, t1
+    if a1 & keyd and a0 and a0 <= reqd and not (a0 & keyd):
+        return t1, t0
+    return 'the zipped sequences are not (key fields, request)'
+
+
+def _run_pair(stmts, atoms, env):
+    """interpret a loop body for one field pair: -> ('ret', bool) | 'break' | 'cont' | 'fall' | None (not understood)"""
+    for s in stmts:
+        if isinstance(s, ast.If):
+            v = _truth(s.test, {**atoms, **{k: v for k, v in env.items()}, **{f'not {k}': not v for k, v in env.items()}})
+            if v is None:
+                return None
+            res = _run_pair(s.body if v else s.orelse, atoms, env)
+            if res != 'fall':
+                return res
+        elif isinstance(s, ast.Return):
+            if isinstance(s.value, ast.Constant) and isinstance(s.value.value, bool):
+                return ('ret', s.value.value)
+            return None
+        elif isinstance(s, ast.Assign) and len(s.targets) == 1 and isinstance(s.targets[0], ast.Name) \
+                and isinstance(s.value, ast.Constant) and isinstance(s.value.value, bool):
+            env[s.targets[0].id] = s.value.value
+        elif isinstance(s, ast.Break):
+            return 'break'
+        elif isinstance(s, ast.Continue):
+            return 'cont'
+        elif isinstance(s, ast.Pass) or (isinstance(s, ast.Expr) and isinstance(s.value, ast.Call)
+                                         and isinstance(s.value.func, ast.Attribute) and s.value.func.attr in LOG_METHODS):
+            continue
+        else:
+            return None
+    return 'fall'
+
+
+def _judge_loop(loop, keyd, reqd, flag):
+    """explicit loop over zip(key fields, request): which pairs make it reject (return False / <flag> = False)?"""
+    zp = _zip_pair(loop.iter, loop.target, keyd, reqd)
+    if isinstance(zp, str):
+        return zp
+    kf, rf = zp
+    table = {}
+    for w in (False, True):
+        for eq in (False, True):
+            env = {flag: True} if flag else {}
+            res = _run_pair(loop.body, _pair_atoms(kf, rf, w, eq), env)
+            if res is None:
+                return (f'the body of the loop over {norm(loop.iter)[:50]} uses something other than "{kf} == {rf}" / "{rf} is None" '
+                        f'(a prefix / substring test on a name is not exact) or is not understood')
+            rejected = (env.get(flag) is False) if flag else res == ('ret', False)
+            if not flag and res == ('ret', True):
+                return 'the loop accepts the key as soon as one field matches'
+            table[(w, eq)] = not rejected
+    if table in (WANT_ALL, STRICT_ALL):
+        return True
+    return f'the loop rejects the wrong field pairs: accepted (wildcard, equal) combinations {sorted(k for k, v in table.items() if v)}'
+
+
+def _judge_match(test, polarity, keyd, reqd, prog=None, f=None, depth=0):
     """True when test (taken with polarity) is 'every requested field equals the key field'; a reason otherwise; None when
     the test does not compare key fields with the request at all"""
+    neg0 = not polarity
+    e0 = test
+    while isinstance(e0, ast.UnaryOp) and isinstance(e0.op, ast.Not):
+        e0, neg0 = e0.operand, not neg0
+    # a flag set by an explicit loop: matched = True; for i, e in zip(ids, req): if <mismatch>: matched = False
+    if isinstance(e0, ast.Name) and f is not None and e0.id not in keyd and e0.id not in reqd:
+        loops = [n for n in f.own_nodes() if isinstance(n, ast.For) and any(
+            isinstance(x, ast.Assign) and any(isinstance(t, ast.Name) and t.id == e0.id for t in x.targets) for x in ast.walk(n))
+            and isinstance(n.iter, ast.Call) and call_name(n.iter) == 'zip']
+        if len(loops) == 1 and names_in(loops[0].iter) & keyd:
+            if neg0:
+                return f'the call runs when {e0.id} is false'
+            inits = [x for x in f.own_nodes() if isinstance(x, ast.Assign) and any(isinstance(t, ast.Name) and t.id == e0.id for t in x.targets)
+                     and not any(y is x for y in ast.walk(loops[0]))]
+            if not (len(inits) == 1 and isinstance(inits[0].value, ast.Constant) and inits[0].value.value is True):
+                return f'{e0.id} is not initialised to True once before the loop'
+            return _judge_loop(loops[0], keyd, reqd, e0.id)
+        return None
+    # a helper: if _matches(ids, req): ...
+    if isinstance(e0, ast.Call) and prog is not None and f is not None and depth < 2 and not (
+            isinstance(e0.func, ast.Name) and e0.func.id in ('all', 'any')):
+        callee = prog.func_of(prog.callee(e0, f) or '')
+        if callee is not None and callee.qname not in prog.classes:
+            k2, r2 = set(), set()
+            for pn, a in Model.match_args(callee, e0):
+                na = names_in(a)
+                if na & keyd:
+                    k2.add(pn)
+                elif na and na <= reqd:
+                    r2.add(pn)
+            if not (k2 and r2):
+                return None
+            # taint inside the helper
+            changed = True
+            while changed:
+                changed = False
+                for n in callee.own_nodes():
+                    if isinstance(n, ast.Assign):
+                        src = names_in(n.value)
+                        for t in n.targets:
+                            for x in ast.walk(t):
+                                if isinstance(x, ast.Name):
+                                    if src & k2 and x.id not in k2:
+                                        k2.add(x.id)
+                                        changed = True
+                                    elif src and src <= r2 and x.id not in r2 and x.id not in k2:
+                                        r2.add(x.id)
+                                        changed = True
+            body = [b for b in callee.node.body if not (isinstance(b, ast.Expr) and isinstance(b.value, ast.Constant))]
+            rets = [n for n in callee.own_nodes() if isinstance(n, ast.Return)]
+            if len(rets) == 1 and rets[0].value is not None and body and body[-1] is rets[0]:
+                v = _judge_match(rets[0].value, not neg0, k2, r2, prog, callee, depth + 1)
+                return v if v is not None else f'{callee.qname} does not compare the key fields with the request'
+            loops = [b for b in body if isinstance(b, ast.For)]
+            if len(loops) == 1 and body[-1] is not loops[0] and isinstance(body[-1], ast.Return) \
+                    and isinstance(body[-1].value, ast.Constant) and body[-1].value.value is True and not loops[0].orelse:
+                if neg0:
+                    return f'the call runs when {callee.name}(...) is false'
+                return _judge_loop(loops[0], k2, r2, None)
+            return f'{callee.qname}: neither a single returned all(...) nor a reject loop followed by "return True" (not understood)'
     if not (names_in(test) & keyd and names_in(test) & reqd):
         return None
     neg = not polarity
